@@ -28,7 +28,7 @@ TITLE = 'render errors: type, expression, position'
 LEVEL = 'exploration'
 SHARDS = {'quick': 16, 'thorough': 16}
 FLOOR = {'quick': 400, 'thorough': 4000}
-REQUIRED_MONITORS = {'M-exc': 2500, 'records-compared': 2000, 'chain-records-compared': 400, 'non-exception-classes': 100, 'deferred-messages-rechecked': 2000}
+REQUIRED_MONITORS = {'M-exc': 2500, 'records-compared': 2000, 'chain-records-compared': 400, 'non-exception-classes': 100, 'deferred-messages-rechecked': 2000, 'entity-written-compared': 400}
 RULE = ('(A) a case = (program, binding table, failing occurrence among those the model reaches, exception class from '
         '{KeyError, ValueError, ZeroDivisionError, CustomError(2 args + attribute), StrOverride, UnicodeDecodeError, '
         'RecursionError, KeyboardInterrupt, SystemExit, GeneratorExit}); (B) a case = (layout of the 3-file chain, failing '
@@ -389,6 +389,73 @@ def layer_file_chain(ctx, n):
         shutil.rmtree(d, ignore_errors=True)
 
 
+def layer_entity_written(ctx, n):
+    """The failing expression (or a list part before it) is written with character entities.  Reference: the message
+    names the expression as it stands in the source, at its line and column.  Alternate model of the known mechanism
+    (same root as the two open C11 findings: attribute values and ${...} expressions are decoded before they are parsed,
+    positions are not mapped back): the message shows the source slice that starts `drift` characters early (drift as in
+    C11) and has the length of the DECODED expression."""
+    import html
+    from chameleon import PageTemplate
+    from checks.c11 import predicted_drift
+    rng = ctx.rng
+    EXPRS = ['1 &lt; f(2)', "'&amp;' + f(2)", 'f(2) &gt; 1', 'f(2) &amp; 1', "f(2) or '&quot;'", 'f(2)', "'&#60;' in f(2)",
+             '(1 &lt;= 2) and f(2)']
+    for i in range(n):
+        e = rng.choice(EXPRS)
+        lead = rng.choice(['', '\n', 'é\n  ', '<i>${g(1)}</i>', '<p tal:content="g(1)">x</p>\n '])
+        ctxk = rng.choice(['content', 'condition', 'define', 'define-second', 'define-third', 'attributes-second', 'text-interp',
+                           'attr-interp', 'replace', 'repeat', 'omit-tag', 'string-part'])
+        first = rng.choice(["a 1 &lt; 2", "a '&amp;'", "a 'x;;y'", 'a 1', "a '&#38;&lt;'"])
+        tpl = {'content': '<p tal:content="%s">x</p>', 'condition': '<p tal:condition="%s">x</p>', 'define': '<p tal:define="w %s">x</p>',
+               'define-second': '<p tal:define="' + first + '; b %s">x</p>',
+               'define-third': '<p tal:define="' + first + "; c '&gt;'; b %s\">x</p>",
+               'attributes-second': '<p tal:attributes="' + first + '; b %s">x</p>', 'text-interp': '<p>t ${%s} u</p>',
+               'attr-interp': '<p a="t ${%s}">x</p>', 'replace': '<p tal:replace="%s">x</p>', 'repeat': '<p tal:repeat="r %s">x</p>',
+               'omit-tag': '<p tal:omit-tag="%s">x</p>', 'string-part': '<p tal:content="string:&lt;${%s}">x</p>'}[ctxk]
+        if ctxk in ('define-second', 'define-third', 'attributes-second', 'string-part') and e == 'f(2)' and first == 'a 1' and ctxk != 'string-part':
+            continue        # nothing written with an entity: the other layers' business
+        src = lead + '<root>' + tpl % e + '</root>'
+        off = src.index(tpl % e) + (tpl % '\x00').index('\x00')
+        q = src.rfind('="', 0, off)
+        seg = src[q + 2:off] if ctxk not in ('text-interp', 'attr-interp') else ''
+        drift = predicted_drift(seg)
+        dec = html.unescape(e)
+        want = [(e, '<string>') + line_col(src, off)]
+        alt = [(src[off + drift:off + drift + len(dec)], '<string>') + line_col(src, off + drift)]
+        clsname = rng.choice(['KeyError', 'ValueError', 'TwoArgs', 'ZeroDivisionError'])
+
+        def f(x, clsname=clsname):
+            raise MAKERS[clsname]()
+        what = 'template %r, %s raised by f(2) inside the expression %r written with entities (%s)' % (src, clsname, e, ctxk)
+        replay = {'kind': 'entity', 'src': src, 'cls': clsname}
+        ctx.mon('entity-written-compared')
+        ctx.case(key=('entity', ctxk, e, first if 'second' in ctxk or 'third' in ctxk else '', bool(lead), clsname), nontrivial=True)
+        try:
+            out = PageTemplate(src)(f=f, g=lambda i: 'g')
+            ctx.violation('failure-swallowed', what + ': render returned %r' % out[:80], replay)
+            continue
+        except BaseException as ex:   # noqa
+            exc = ex
+        if not isinstance(exc, type(MAKERS[clsname]())) or exc.args != MAKERS[clsname]().args:
+            ctx.violation('exception-class-or-args-not-preserved', what + ': got %r' % (exc,), replay)
+            continue
+        try:
+            msg = str(exc)
+        except Exception as e2:
+            ctx.violation('message-formatting-fails', what + ': str() raised %r' % (e2,), replay)
+            continue
+        recs = [(a, b[-40:], int(c), int(d)) for a, b, c, d in REC.findall(msg)]
+        if recs == want:
+            continue
+        if recs == alt and alt != want:
+            ctx.violation('expression-written-with-entities-named-by-a-shifted-or-truncated-source-slice',
+                          what + ': records %r, expected %r' % (recs, want), replay)
+        else:
+            ctx.violation('entity-written-expression-record-differs', what + ': records %r, expected %r (known mechanism predicts %r)'
+                          % (recs, want, alt), replay)
+
+
 def run(ctx):
     monitors.install(ctx, tokalg=False)
     layer_string_templates(ctx, 60 if ctx.quick else 1000)
@@ -396,6 +463,7 @@ def run(ctx):
     layer_inplace_macro(ctx, 25 if ctx.quick else 400)
     layer_recursive_render(ctx, 20 if ctx.quick else 300)
     layer_handled_then_later(ctx, 20 if ctx.quick else 300)
+    layer_entity_written(ctx, 40 if ctx.quick else 600)
 
 
 def replay(data):
